@@ -484,7 +484,7 @@ class Case:
         end = time.time() + 1.5
         while time.time() < end:
             left = [(c, t) for c in list(h.conns) if c.state == _closed
-                    for t in (c._read_thread, c._write_thread) if t.is_alive()]
+                    for t in (c._read_thread, c._write_thread) if t is not None and t.is_alive()]
             if not left:
                 break
             time.sleep(0.01)
